@@ -458,6 +458,11 @@ func (w *World) applyCommit(dt int64) error {
 	w.pendDT = dt
 	w.snap()
 	w.shape("commit")
+	if w.On("C07") {
+		if err := w.CheckInvariants(); err != nil {
+			return err
+		}
+	}
 	return w.checkCommitted()
 }
 
